@@ -61,7 +61,7 @@ def run(v):
     if not d["ok"]:
         raise SpecError("WrapDesign failed:\n" + d["tail"])
     q = v.tier == "quick"
-    fam = family(SEED + 130, 24 if q else 120)
+    fam = family(SEED + 130, 40 if q else 160)
     rnd = random.Random(SEED)
     widths = sorted(set([1, 2, 7, 20, 39, 40, 41, 42, 50, 64, 79, 80, 81, 100, 101, 120, 200, 300] + [rnd.randint(40, 140) for _ in range(8)])) \
         if q else list(range(1, 301))
